@@ -53,20 +53,20 @@ def observe(prj, before_hash, vcs):
     return trace, wrote
 
 
-def run_config(rep, impl, cfg, opts, world, vcs):
+def run_config(rep, impl, cfg, opts, world, vcs, tags=(), kill=False):
     """cfg=(commit,tag,push,pre,post) opts=(ocommit,otag,opush,dry,allow_dirty,fetch,ignore) world=(has_vcs,remote,dirty,tagmsg_empty,fail)"""
     commit, tag, push, pre, post = cfg
     ocommit, otag, opush, dry, allow_dirty, fetch, ignore = opts
     has_vcs, remote, dirty, tagmsg_empty, fail = world
     hooks = {}
     if pre != "absent":
-        hooks["pre"] = "ok" if pre == "ok" else "fail"
+        hooks["pre"] = "ok" if pre == "ok" else ("kill" if kill else "fail")
     if post != "absent":
-        hooks["post"] = "ok" if post == "ok" else "fail"
+        hooks["post"] = "ok" if post == "ok" else ("kill" if kill else "fail")
     status = {0: "", 1: " M other.txt\n", 2: " M a.txt\n", 3: "?? other.txt\n"}[dirty]
     if vcs == "fakehg":
         status = {0: "", 1: "M other.txt\n", 2: "M a.txt\n", 3: "? other.txt\n"}[dirty]
-    vcs_cfg = dict(tags=[], status=status, remote="origin" if remote else None, fail=[fail] if fail else [], usable=True, watch="a.txt")
+    vcs_cfg = dict(tags=list(tags), status=status, remote="origin" if remote else None, fail=[fail] if fail else [], usable=True, watch="a.txt")
     prj = project.TempProject("MAJOR.MINOR.PATCH", "1.2.3", files={"a.txt": ["ver = {version}"]}, commit=commit, tag=tag, push=push,
                               vcs=vcs if has_vcs else None, vcs_cfg=vcs_cfg if has_vcs else None, hooks=hooks,
                               tag_message="" if tagmsg_empty else "tag {new_version}")
@@ -103,7 +103,7 @@ def hg_adjust(vcs, dirty):
     return 1 if (vcs == "fakehg" and dirty == 3) else dirty
 
 
-def properties(rep, cfg, opts, world, vcs, code, trace, hook_lines, args):
+def properties(rep, cfg, opts, world, vcs, code, trace, hook_lines, args, old_version="1.2.3", new_version="1.2.4"):
     """the property's own clauses, checked on the implementation's trace (independent of the model)"""
     commit, tag, push, pre, post = cfg
     ocommit, otag, opush, dry, allow_dirty, fetch, ignore = opts
@@ -145,7 +145,7 @@ def properties(rep, cfg, opts, world, vcs, code, trace, hook_lines, args):
                 rep.violation("steps continued (or exit 0) after a failing %s-commit hook" % which, input=inp, **{"class": "continued-after-hook"})
     for line in hook_lines:
         parts = line.split(" ")
-        if len(parts) != 3 or parts[1] != "1.2.3" or parts[2] != "1.2.4":
+        if len(parts) != 3 or parts[1] != old_version or parts[2] != new_version:
             rep.violation("hook did not receive BUMPVER_OLD_VERSION/BUMPVER_NEW_VERSION", input=inp, **{"class": "hook-env"})
     contradictory = (ocommit is False and (otag or opush)) or (not eff_commit and (otag or opush))
     if contradictory and (trace or code == 0):
@@ -209,6 +209,18 @@ def run(rep, tier, seed, model_ok=True, effort=1):
         items.append("(%s,%s,%s,[%s],%s)" % (ccfg, copts, cworld, ";".join(trace), cb(code == 0)))
         meta.append(dict(config=cfg, opts=opts, world=world, vcs=vcs, args=args, impl_trace=trace, exit=code, logs=logs[-3:]))
         rep.sample(dict(args=" ".join(args), config=cfg, trace=trace, exit=code))
+    # hooks receive the VCS-resolved old version (a tag newer than the config value), and a hook killed by a signal counts as failed
+    full = ((True, True, True, "ok", "ok"), (None, None, None, False, False, False, False), (True, True, 0, False, None))
+    code, trace, hook_lines, args, logs = run_config(rep, impl, full[0], full[1], full[2], "fakegit", tags=["1.2.5", "1.0.0"])
+    rep.case(("hook-env-newer-tag",))
+    properties(rep, full[0], full[1], full[2], "fakegit", code, trace, hook_lines, args, old_version="1.2.5", new_version="1.2.6")
+    if code != 0 or len(hook_lines) != 2:
+        rep.violation("update with a newer tag and hooks did not complete", input=dict(args=args, trace=trace, hooks=hook_lines, logs=logs[-3:]), **{"class": "hook-env"})
+    for which in ("pre", "post"):
+        cfgk = (True, True, True, "fail" if which == "pre" else "ok", "fail" if which == "post" else "absent")
+        code, trace, hook_lines, args, logs = run_config(rep, impl, cfgk, full[1], full[2], "fakegit", kill=True)
+        rep.case(("hook-killed", which))
+        properties(rep, cfgk, full[1], full[2], "fakegit", code, trace, hook_lines, args)
     if model_ok:
         bad, errs = common.coq_eval("c10", HDR, "ucfg * uopts * world * list ev * bool",
                                     "fun '(c, o, w, tr, ok) => let '(t, k) := update_trace c o w in Bool.eqb k ok && (Nat.eqb (length t) (length tr)) && forallb (fun '(a, b) => ev_eqb a b) (combine t tr)",
